@@ -127,6 +127,90 @@ theorem b2mRm_mem (m : Mgr) (btv : List (String × MVar)) (zones : List (String 
           simp only [Bool.false_eq_true, if_false] at hu
           exact ih r hr u hu
 
+/-! ### predecessors and in-degree -/
+
+theorem foldl_bddPreds (u : Nat) : ∀ (l : List (Nat × Nd)) (acc : List Nat),
+    l.foldl (fun acc p => if p.2.lo.natAbs = u ∨ p.2.hi.natAbs = u then acc ++ [p.1] else acc) acc =
+      acc ++ (l.filter (fun p => decide (p.2.lo.natAbs = u ∨ p.2.hi.natAbs = u))).map (·.1) := by
+  intro l
+  induction l with
+  | nil => intro acc; simp
+  | cons p rest ih =>
+    intro acc
+    simp only [List.foldl_cons, ih]
+    by_cases h : p.2.lo.natAbs = u ∨ p.2.hi.natAbs = u
+    · simp [h]
+    · simp [h]
+
+theorem bddPreds_eq (t : Tbl) (u : Nat) :
+    bddPreds t u =
+      (t.succ.toList.filter (fun p => decide (p.2.lo.natAbs = u ∨ p.2.hi.natAbs = u))).map (·.1) := by
+  unfold bddPreds
+  rw [TreeMap.foldl_eq_foldl_toList]
+  rw [foldl_bddPreds u t.succ.toList []]
+  simp
+
+theorem mem_bddPreds (t : Tbl) (u k : Nat) (hk : k ∈ bddPreds t u) :
+    ∃ n, t.node? k = some n ∧ (n.lo.natAbs = u ∨ n.hi.natAbs = u) := by
+  rw [bddPreds_eq] at hk
+  simp only [List.mem_map, List.mem_filter, decide_eq_true_eq] at hk
+  obtain ⟨⟨k', n⟩, ⟨hm, hl⟩, rfl⟩ := hk
+  exact ⟨n, TreeMap.mem_toList_iff_getElem?_eq_some.mp hm, hl⟩
+
+theorem nodup_bddPreds (t : Tbl) (u : Nat) : (bddPreds t u).Nodup := by
+  rw [bddPreds_eq]
+  have h := TreeMap.distinct_keys_toList (t := t.succ)
+  have h2 := h.filter (fun p => decide (p.2.lo.natAbs = u ∨ p.2.hi.natAbs = u))
+  unfold List.Nodup
+  rw [List.pairwise_map]
+  refine h2.imp ?_
+  intro a b hab e
+  apply hab
+  rw [e]
+  exact compare_self
+
+/-- a duplicate-free list of slots below `b`, each with at least one edge to `u`, is not longer
+than the number of edges to `u` from the slots below `b` -/
+theorem length_le_indegUpTo (t : Tbl) (u : Nat) : ∀ (b : Nat) (l : List Nat), l.Nodup →
+    (∀ k ∈ l, k < b ∧ 0 < slotCount t u k) → l.length ≤ indegUpTo t u b := by
+  intro b
+  induction b with
+  | zero =>
+    intro l _ h
+    cases l with
+    | nil => simp
+    | cons x xs => have := (h x (by simp)).1; omega
+  | succ b ih =>
+    intro l hnd h
+    show l.length ≤ indegUpTo t u b + slotCount t u b
+    by_cases hb : b ∈ l
+    · have h1 := ih (l.erase b) (hnd.erase b) (by
+        intro k hk
+        have hk' := (hnd.mem_erase_iff).mp hk
+        have := h k hk'.2
+        exact ⟨by omega, this.2⟩)
+      have h2 := List.length_erase_of_mem hb
+      have h3 := (h b hb).2
+      have : 0 < l.length := List.length_pos_of_mem hb
+      omega
+    · have h1 := ih l hnd (by
+        intro k hk
+        have := h k hk
+        have : k ≠ b := fun e => hb (e ▸ hk)
+        exact ⟨by omega, (h k hk).2⟩)
+      omega
+
+/-- the number of distinct predecessors of a node does not exceed its in-degree -/
+theorem bddPreds_le_indeg (t : Tbl) (u : Nat) : (bddPreds t u).length ≤ indeg t u := by
+  unfold indeg
+  apply length_le_indegUpTo t u t.bound _ (nodup_bddPreds t u)
+  intro k hk
+  obtain ⟨n, hn, he⟩ := mem_bddPreds t u k hk
+  refine ⟨t.lt_bound hn, ?_⟩
+  unfold slotCount edgeCount
+  rw [hn]
+  rcases he with he | he <;> simp [he] <;> omega
+
 /-! ### the whole call -/
 
 /-- what a successful `bdd_to_mdd(bdd, dvars)` guarantees -/
@@ -146,11 +230,9 @@ structure B2MOK (ext : Nat → Nat) (dvars : List MVar) (mb : Mgr) (out : B2MOut
   function of the variable names -/
   held : ∀ u : Nat, 0 < ext u → mb'.tbl.Mem (u : Int) ∧
     ∀ a, denN mb'.tbl (u : Int) a = denN mb.tbl (u : Int) a
-  /-- the terminal and every node that the code's own test finds referenced from outside its zone
-  (count above the number of its predecessors, after the collection and the reordering) is mapped -/
+  /-- every BDD node the user holds (and the terminal) has an image -/
   mapped : (out.umap.lookup 1).isSome = true ∧
-    ∃ m2 : Mgr, Ext m2.tbl mb'.tbl ∧ ∀ (u : Nat) (c : Nat), (m2.tbl.node? u).isSome = true →
-      m2.ref[u]? = some c → (bddPreds m2.tbl u).length < c → (out.umap.lookup u).isSome = true
+    ∀ u : Nat, 0 < ext u → (out.umap.lookup u).isSome = true
 
 /-- C15, conversion: for a BDD manager satisfying the reordering invariant (manager invariant,
 name maps, exact counts for the ledger `ext`, roots held) with dynamic reordering not enabled,
@@ -172,7 +254,7 @@ theorem bddToMdd_spec (ext : Nat → Nat) (mb : Mgr) (h : ReorderInv ext mb) (ho
   obtain ⟨hB, hM, hV, hU⟩ := b2mLoop_bdd_sound dvars m2 P.inv.inv P.off P.zone p.rm ord
     (fun u hu _ => (hordm u).mp hu) out mb' hloop
   obtain ⟨hk1, hk2⟩ := b2mLoop_keys p.rm (b2mBitToVar dvars) ord _ _ m2 out mb' hloop
-  refine ⟨hM, hV, hB.inv, hB.zone, hU, ?_, ?_, m2, hB.ext, ?_⟩
+  refine ⟨hM, hV, hB.inv, hB.zone, hU, ?_, ?_, ?_⟩
   · intro u hu
     obtain ⟨hm2, hden⟩ := P.held u hu
     refine ⟨hB.ext.mem hm2, ?_⟩
@@ -181,7 +263,20 @@ theorem bddToMdd_spec (ext : Nat → Nat) (mb : Mgr) (h : ReorderInv ext mb) (ho
     unfold denN
     rw [den_ext hB.ext hW2 (u : Int) _ hm2, lift_congr hB.frame.l2v]
   · apply hk1; simp [List.lookup_cons]
-  · intro u c hn hc hlt
+  · intro u hu
+    have hmemu : m2.tbl.Mem (u : Int) := (P.held u hu).1
+    by_cases hu1 : u = 1
+    · subst hu1; apply hk1; simp [List.lookup_cons]
+    have hn : (m2.tbl.node? u).isSome = true := by
+      rcases hmemu with h1 | h1
+      · exact absurd (by simpa using h1) hu1
+      · simpa using h1
+    have hc := P.inv.refExact.get hmemu
+    simp only [Int.natAbs_natCast] at hc
+    have hlt : (bddPreds m2.tbl u).length <
+        indeg m2.tbl u + ext u + (if u = 1 then 1 else 0) := by
+      have := bddPreds_le_indeg m2.tbl u
+      omega
     apply hk2 u ((hordm u).mpr hn)
     -- not left out: the nodes in `rm` have a count not above the number of predecessors
     cases hcon : p.rm.contains u with
